@@ -41,6 +41,12 @@ enum event_kind {
   EV_BUCKETS_REPLACE = 18, // the bucket array of the table is about to be exchanged
   EV_FUNCTOR = 19,       // a user functor is about to run on bucket `value`
   EV_BUCKETS_FREE = 20,  // a bucket container is asked to destroy its elements and free its array (value 1: already freed)
+  EV_RUN_CUCKOO_HP = 21, // run_cuckoo: the snapshot it carries across its unlocked phases (hashpower, then resize counter)
+  EV_RUN_CUCKOO_RC = 22,
+  EV_PATH_DEPTH = 23,    // cuckoopath_move: depth of the hop about to be validated (0: the zero-length path)
+  EV_PATH_HOP = 24,      // ... its records: from.bucket<<40 | from.slot<<32 | to.bucket<<8 | to.slot
+  EV_PATH_HASH = 25,     // ... from.hv.hash
+  EV_DOUBLE_REQ = 26,    // cuckoo_fast_double entered with this current_hp
 };
 using handler_t = void (*)(int kind, const void *addr, std::size_t value);
 inline std::atomic<handler_t> &handler() {
